@@ -8,7 +8,7 @@ Tie        : every load class' `.impedance` vs the Lean circuit functions; cache
              (Z after loads − Z before) vs Lean `loadDiag` for random attachments in all forms.
 Search     : loaded vs unloaded feed impedance; distributed loads vs closed form per pulse.
 """
-import math, cmath
+import math, cmath, re
 import numpy as np
 import antgen
 from common import f2b, b2f, close
@@ -184,6 +184,21 @@ def closed_form_pulse(m, ld, pulse):
 
 def property_distributed(m):
     from mininec.mininec import Skin_Effect_Load, Insulation_Load
+    # completeness: every pulse with a (real) half segment on a wire that carries a skin-effect / insulation load is
+    # loaded by a load of that kind — whichever wire owns the pulse, however many wires meet there
+    for kind, attr in ((Skin_Effect_Load, 'skin_load'), (Insulation_Load, 'coat_load')):
+        listed = set()
+        for ld in m.loads:
+            if isinstance(ld, kind):
+                listed.update(p.idx for p in ld.pulses)
+        for p in m.pulses:
+            for h in (0, 1):
+                if p.ground[h]:
+                    continue
+                g = p.segs[h].geobj
+                if getattr(g, attr, None) is not None and p.idx not in listed:
+                    return ('pulse %d has a half segment on object %d, which carries a %s, but no load of that kind is attached to it'
+                            % (p.idx + 1, g.n + 1, kind.__name__))
     for ld in m.loads:
         if isinstance(ld, (Skin_Effect_Load, Insulation_Load)):
             for p in ld.pulses:
@@ -285,6 +300,7 @@ def run(ck):
         viol.append(dict(kind='insulation-junction', observed=bad,
                          api=['Wire(1,0,0,0,0,0,1,.001)', 'Wire(4,0,0,1,0,1,1,.003)', 'Insulation_Load(w,.005,3.0) on both', 'f=10']))
     n = 120 if ck.tier == 'quick' else 2000
+    viol_d = []
     for i in range(n):
         gs = rng.randrange(10 ** 9)
         r2 = random.Random(gs)
@@ -376,8 +392,21 @@ def run(ck):
                 if got != want:
                     why = '%s: pulse %d is listed by the loads of objects %r, model %r' % (cls.__name__, p.idx + 1, got, want)
                     break
-        if why:
+        # the property on the implementation alone, whether or not the tie holds
+        try:
+            pbad = property_distributed(m)
+        except Exception as e:
+            pbad = None
+        if pbad:
+            viol_d.append(dict(kind='distributed', gen_seed=gs, small=(ck.tier == 'quick'), observed=pbad, antenna=ant))
+        elif why:
             dis.append(dict(kind='loaded', gen_seed=gs, why=why, small=(ck.tier == 'quick')))
+    seen_d = set()
+    for v in viol_d:
+        k_ = re.sub(r'[0-9.e+-]+', '#', v['observed'])[:40]
+        if k_ not in seen_d:
+            seen_d.add(k_)
+            ck.violation(v)
     # feed-shift evaluator on a small vetted corpus
     crng = random.Random(424242)
     for j in range(4 if ck.tier == 'quick' else 30):
